@@ -58,7 +58,7 @@ def r1(ctx):
         arms = {}
         for a in m["arms"]:
             vp, _ = e4.arm_variant(a)
-            arms[vp.split("::")[-1]] = _pretty_renamed(a["body"], tgt)
+            arms[vp.split("::")[-1]] = _arm_summary(c, a["body"], tgt)
             # receivers of the primitives must be the combination target
             for x in walk(a["body"]):
                 if x.get("k") == "mcall" and x["callee"] in INPLACE:
@@ -71,6 +71,17 @@ def r1(ctx):
                   "in-loop and output copies of the %s arm agree" % v,
                   "the %s arm differs between the two hand-written copies: `%s` vs `%s`" % (v, short(texts[0].get(v, ""), 120), short(texts[1].get(v, ""), 120)))
     return fn, ms
+
+
+def _arm_summary(c, body, tgt):
+    """what an accumulation arm does, independent of spelling: primitives applied to the target, and how the sources are taken"""
+    prims = sorted({x["callee"].split("::")[-1] for x in walk(body) if x.get("k") == "mcall" and x["callee"] in INPLACE and pretty(strip(x["recv"])) == tgt})
+    each = any(x.get("k") == "for" for x in walk(body))
+    last = any(x.get("k") == "mcall" and x["name"] == "last" for x in walk(body))
+    first = any(x.get("k") == "mcall" and x["name"] in ("first", "nth", "get") and "activated" not in pretty(x) for x in walk(body) if x.get("k") == "mcall" and x["name"] in ("first", "nth"))
+    assigns = sorted(pretty(strip(x["l"])) == tgt for x in walk(body) if x.get("k") == "assign")
+    srcs = len([x for x in walk(body) if x.get("k") == "index" and pretty(strip(x["b"])) == "activated"])
+    return (tuple(prims), each, last, first, tuple(assigns), srcs)
 
 
 def _pretty_renamed(node, name):
@@ -121,21 +132,39 @@ def r2(ctx, fn, ms):
         raise Unestablished("Feedback::forward: no enumerate loop over self.layers", c.loc(fn))
     lp = lp[0]
     ih = pat_binds(lp["pat"])[0][1]
+    from .common import map_guard, is_lookup
     first_if = [s for s in top_stmts_of(lp["body"]) if s.get("k") == "if" and any(y is ms[0] for y in walk(s))]
-    ok = len(first_if) == 1 and pretty(strip(first_if[0]["c"])) == "self.connect.contains_key(&i)" and e4.local_hid(strip(first_if[0]["c"])["args"][0]) == ih
+    mg = map_guard(first_if[0], "connect") if len(first_if) == 1 else None
+    ok = mg is not None and e4.local_hid(mg["key"]) == ih
     ctx.check("R11.2", "forward:position-key", ok, "in-loop-key", c.loc(fn, lp), "entry i applies to the input of position i")
-    gets = [x for x in walk(ms[0]) if x.get("k") == "mcall" and x["name"] == "get" and "self.connect" in pretty(x["recv"])]
-    ctx.check("R11.2", "forward:position-lookups", len(gets) == 5 and all(e4.local_hid(g["args"][0]) == ih for g in gets), "in-loop-lookups:%d" % len(gets), c.loc(fn, ms[0]), "every arm reads self.connect.get(&i)")
+    n_look = 0
+    if mg is not None:
+        for a_ in ms[0]["arms"]:
+            if e4.arm_variant(a_)[0] == "_":
+                continue
+            n_look += any(is_lookup(y, "connect", ih, mg["bound"]) for y in walk(a_["body"]))
+    ctx.check("R11.2", "forward:position-lookups", n_look == 5, "in-loop-lookups:%d" % n_look, c.loc(fn, ms[0]), "every arm takes its sources from self.connect[i]")
     st = top_stmts_of(fn["body"])
     fin = [s for s in st if s.get("k") == "if" and any(y is ms[1] for y in walk(s))]
-    ok = len(fin) == 1 and pretty(strip(fin[0]["c"])) == "self.connect.contains_key(&self.layers.len())"
+    mg2 = map_guard(fin[0], "connect") if len(fin) == 1 else None
+    from ..hir import let_table, cpretty
+    TT = let_table(fn["body"])
+    ok = mg2 is not None and cpretty(mg2["key"], TT) == "self.layers.len()"
     ctx.check("R11.2", "forward:output-key", ok, "output-key:" + (short(pretty(fin[0]["c"]), 60) if fin else "?"), c.loc(fn), "entry layers.len() applies to the block output")
-    if fin:
-        il = [s for s in top_stmts_of(fin[0]["th"]) if s.get("k") == "let" and s["pat"].get("k") == "bind" and s["pat"]["name"] == "i"]
-        oki = len(il) == 1 and pretty(strip(il[0]["init"])) == "self.layers.len()"
-        gets2 = [x for x in walk(ms[1]) if x.get("k") == "mcall" and x["name"] == "get" and "self.connect" in pretty(x["recv"])]
-        oki = oki and len(gets2) == 5 and all(e4.local_hid(g["args"][0]) == il[0]["pat"]["hid"] for g in gets2)
-        ctx.check("R11.2", "forward:output-lookups", oki, "output-lookups", c.loc(fn, ms[1]), "every arm reads self.connect.get(&layers.len())")
+    if mg2 is not None:
+        n2 = 0
+        for a_ in ms[1]["arms"]:
+            if e4.arm_variant(a_)[0] == "_":
+                continue
+            hit = False
+            for y in walk(a_["body"]):
+                yy = strip(y)
+                if yy.get("k") == "local" and yy["hid"] in mg2["bound"]:
+                    hit = True
+                if yy.get("k") == "mcall" and yy["name"] == "get" and "self.connect" in pretty(yy["recv"]) and cpretty(yy["args"][0], TT) == "self.layers.len()":
+                    hit = True
+            n2 += hit
+        ctx.check("R11.2", "forward:output-lookups", n2 == 5, "output-lookups:%d" % n2, c.loc(fn, ms[1]), "every arm takes its sources from self.connect[layers.len()]")
     # sources are activated[*idx]
     for k, m in enumerate(ms):
         srcs = [x for x in walk(m) if x.get("k") == "index" and pretty(strip(x["b"])) == "activated"]
